@@ -142,7 +142,9 @@ def goEvalV {T : Type} [Codec T FX] [Evaluate T FX] (a : Args) : String :=
   match (arg a "pw").bind (segs? (T := T)), (arg a "xs").bind fxList? with
   | some segs, some xs =>
     let r := Hand.evaluateV ⟨segs⟩ xs
-    verdict a (Out.ofOptNums r) (Mon.evalV xs ((arg a "direct").bind fxList?) ((arg a "directmax").bind fxList?))
+    verdict a (Out.ofOptNums r) (fun impl =>
+      if arg a "lazy" == some "0" then some "evaluate_v is not lazy: it consumed more inputs than it had produced outputs"
+      else Mon.evalV xs ((arg a "direct").bind fxList?) ((arg a "directmax").bind fxList?) impl)
   | _, _ => "bad args"
 
 def goDeriv {T D : Type} [Codec T FX] [HasDerivative T D] [Nums D FX] (a : Args) : String :=
